@@ -167,3 +167,7 @@ def run(ctx):
                    "from_f64-arg-provenance", where=pat.where(t),
                    detail="from_f64 argument derives from %s: a round trip through f64" % [fmt_source(s) for s in bad])
     ctx.ob("C19-b", "from_f64 sites analysed (>= 10 expected, found %d)" % n_from, n_from >= 10, "*", "from_f64-floor")
+    if ctx.cfg == "default":
+        from ..fixtures import detectors_alive
+        ctx.rule("C19-z", "positive example: the to_f64 who-may-call detector fires on fixtures/")
+        detectors_alive(ctx, "C19-z", {"to_f64"})
